@@ -75,7 +75,8 @@ def make_module():
     return m
 
 
-def build(shape, mode, eoe):
+def build(shape, mode, eoe, dcf=None):
+    """dcf: path of a default config file of the ROOT parser (its content is part of the fuzzed input)"""
     import decimal
     from typing import Any, Callable, Dict, List, Literal, Optional, Set, Tuple, Type, Union
 
@@ -83,7 +84,7 @@ def build(shape, mode, eoe):
     from jsonargparse.typing import Path_fr, PositiveInt
 
     m = make_module()
-    p = ArgumentParser(exit_on_error=eoe, env_prefix="APP", parser_mode=mode)
+    p = ArgumentParser(exit_on_error=eoe, env_prefix="APP", parser_mode=mode, default_config_files=[dcf] if dcf else None)
     p.add_argument("--cfg", action=ActionConfigFile)
     p.add_argument("--i", type=int, default=1)
     p.add_argument("--f", type=float, default=1.0)
@@ -126,6 +127,10 @@ def build(shape, mode, eoe):
         c = ArgumentParser()
         c.add_argument("--w", type=float, default=0.5)
         sc2.add_subcommand("gamma", c)
+        d = ArgumentParser()  # a sub-command with a REQUIRED option
+        d.add_argument("--r", type=int, required=True)
+        d.add_argument("--o", type=int, default=0)
+        sc.add_subcommand("delta", d)
     return p
 
 
@@ -228,6 +233,39 @@ def productions(shape, tmp):
             ("bytes", {"s": b"abc"}), ("set", {"l": {1, 2}}), ("enum-bad", {"e": "GREEN"}), ("path-missing", {"p": "/nonexistent/x"})]
     for lab, o in objs:
         out.append((f"object:{lab}", "parse_object", o))
+    if shape == "sub":
+        # a sub-command that is only NAMED, or given a section that is not a mapping / lacks the required key, parsed
+        # with and without the help of defaults and environment
+        secs = [("name-only", {"subcommand": "delta"}), ("empty-section", {"subcommand": "delta", "delta": {}}), ("null-section", {"subcommand": "delta", "delta": None}),
+                ("optional-only", {"subcommand": "delta", "delta": {"o": 1}}), ("bad-required", {"subcommand": "delta", "delta": {"r": "abc"}}),
+                ("alpha-name-only", {"subcommand": "alpha"}), ("beta-name-only", {"subcommand": "beta"}), ("beta-inner-name-only", {"subcommand": "beta", "beta": {"subcommand": "gamma"}})]
+        for lab, o in secs:
+            for nd in (False, True):
+                sfx, opts = (":nodefaults", {"defaults": False}) if nd else ("", {})
+                out.append((f"object:sub:{lab}{sfx}", "parse_object", o, opts))
+                out.append((f"string:sub:{lab}{sfx}", "parse_string", json.dumps(o), opts))
+                f = os.path.join(tmp, f"sub-{lab}.json")
+                with open(f, "w") as fh:
+                    json.dump(o, fh)
+                out.append((f"path:sub:{lab}{sfx}", "parse_path", f, opts))
+                out.append((f"argv:cfg-sub:{lab}{sfx}", "parse_args", ["--cfg=" + json.dumps(o)], opts))
+        out.append(("argv:sub:delta-missing-required", "parse_args", ["delta"]))
+        out.append(("argv:sub:delta-bad-required", "parse_args", ["delta", "--r=abc"]))
+        out.append(("env:sub:delta-name-only", "parse_env", {"APP_SUBCOMMAND": "delta"}))
+        # a DEFAULT CONFIG FILE of the root parser whose content for a sub-command is well- or ill-formed, with the
+        # sub-command chosen through every channel
+        dcfs = [("null-section", "alpha:\n"), ("empty-section", "alpha: {}\n"), ("scalar-section", "alpha: 5\n"), ("list-section", "alpha: [1]\n"), ("good-section", "alpha:\n  k: 2\n"),
+                ("bad-value", "alpha:\n  k: abc\n"), ("unknown-key", "alpha:\n  zz: 1\n"), ("two-sections", "alpha:\n  k: 2\ndelta:\n  r: 1\n"), ("null-inner", "beta:\n  gamma:\n"),
+                ("broken", "alpha: [1,\n"), ("not-mapping", "- 1\n"), ("empty-file", ""), ("unknown-sub", "subcommand: zz\n"), ("global-bad", "i: abc\n")]
+        for dl, text in dcfs:
+            opts = {"dcf": text}
+            out.append((f"dcf:{dl}:argv-name", "parse_args", ["alpha"], opts))
+            out.append((f"dcf:{dl}:argv-none", "parse_args", [], opts))
+            out.append((f"dcf:{dl}:object-name", "parse_object", {"subcommand": "alpha"}, opts))
+            out.append((f"dcf:{dl}:string-name", "parse_string", '{"subcommand": "alpha"}', opts))
+            out.append((f"dcf:{dl}:cfg-name", "parse_args", ['--cfg={"subcommand": "alpha"}'], opts))
+            out.append((f"dcf:{dl}:env-name", "parse_env", {"APP_SUBCOMMAND": "alpha"}, opts))
+            out.append((f"dcf:{dl}:object-other", "parse_object", {"subcommand": "delta", "delta": {"r": 1}}, opts))
     return out
 
 
@@ -239,8 +277,9 @@ def _alarm(signum, frame):
     raise _Timeout()
 
 
-def run_one(parser, method, payload, eoe):
+def run_one(parser, method, payload, eoe, kw=None):
     """-> (out, usage)"""
+    kw = kw or {}
     err, outb = io.StringIO(), io.StringIO()
     signal.signal(signal.SIGALRM, _alarm)
     signal.alarm(8)
@@ -249,15 +288,15 @@ def run_one(parser, method, payload, eoe):
         with contextlib.redirect_stderr(err), contextlib.redirect_stdout(outb):
             try:
                 if method == "parse_args":
-                    parser.parse_args(list(payload))
+                    parser.parse_args(list(payload), **kw)
                 elif method == "parse_env":
-                    parser.parse_env(dict(payload))
+                    parser.parse_env(dict(payload), **kw)
                 elif method == "parse_string":
-                    parser.parse_string(payload)
+                    parser.parse_string(payload, **kw)
                 elif method == "parse_path":
-                    parser.parse_path(payload)
+                    parser.parse_path(payload, **kw)
                 elif method == "parse_object":
-                    parser.parse_object(payload)
+                    parser.parse_object(payload, **kw)
                 out = "return"
             except SystemExit as ex:
                 out = "exit0" if ex.code in (0, None) else "exit2" if ex.code == 2 else f"exit:{ex.code}"
@@ -293,15 +332,23 @@ def fuzz_worker(job):
             pass
         sys.stdin = open(os.devnull)
         prods = productions(shape, tmp)
-        for n, (label, method, payload) in enumerate(prods):
+        for n, prod in enumerate(prods):
+            label, method, payload = prod[:3]
+            opts = prod[3] if len(prod) > 3 else {}
             if n % job["nparts"] != job["part"]:
                 continue
+            dcf = None
+            if "dcf" in opts:
+                dcf = os.path.join(tmp, f"defaults-{n}.yaml")
+                with open(dcf, "w") as fh:
+                    fh.write(opts["dcf"])
+            kw = {"defaults": False} if opts.get("defaults") is False else {}
             try:
-                parser = build(shape, mode, eoe)
+                parser = build(shape, mode, eoe, dcf=dcf)
             except Exception as ex:
                 res.append({"label": label, "method": method, "out": "escape:build:" + type(ex).__name__, "usage": False, "asked0": False, "payload": repr(payload)[:200]})
                 continue
-            out, usage = run_one(parser, method, payload, eoe)
+            out, usage = run_one(parser, method, payload, eoe, kw)
             asked0 = method == "parse_args" and any(str(a).split("=")[0] in ("--help", "-h", "--print_config", "--model.help", "--m.help") or str(a).endswith(".help") for a in payload)
             res.append({"label": label, "method": method, "out": out, "usage": usage, "asked0": asked0, "payload": repr(payload)[:200]})
         return res
@@ -367,6 +414,15 @@ SITES = {
     ("parse_env", "deserialise a decimal.Decimal"): ("decimal", lambda p: p.parse_env({"APP_DEC": "INJECT"})),
     ("parse_path", "read the file (Path.get_content in parse_path)"): ("get-content", lambda p: p.parse_path(p._inject_file2)),
     ("parse_args", "read the file of --cfg (Path.get_content in parse_path)"): ("get-content", lambda p: p.parse_args(["--cfg", p._inject_file2])),
+    # a failure INSIDE get_defaults while a default config file is applied; these run with exit_on_error=True, where the
+    # documented channel is usage + exit status 2 (an ArgumentError exception is an escape there)
+    ("parse_args", "default config file"): ("dcf", lambda p: p.parse_args([])),
+    ("parse_object", "default config file"): ("dcf", lambda p: p.parse_object({})),
+    ("parse_string", "default config file"): ("dcf", lambda p: p.parse_string("{}")),
+    ("parse_env", "default config file"): ("dcf", lambda p: p.parse_env({})),
+    ("parse_args", "settings of a sub-command that are not a mapping (_subcommand_settings, _check_value_key)"): ("natural:TypeError", lambda p: p.parse_args(['--cfg={"subcommand": "alpha", "alpha": 5}'])),
+    ("parse_object", "settings of a sub-command that are not a mapping (_subcommand_settings, _check_value_key)"): ("natural:TypeError", lambda p: p.parse_object({"subcommand": "alpha", "alpha": 5})),
+    ("parse_string", "settings of a sub-command that are not a mapping (_subcommand_settings, _check_value_key)"): ("natural:TypeError", lambda p: p.parse_string('{"subcommand": "alpha", "alpha": [1]}')),
     # NATURAL sites: nothing is patched, the input itself makes the stage raise the one class named
     ("parse_args", "convert an int to float (float(val) in the leaf branch)"): ("natural:OverflowError", lambda p: p.parse_args(["--f=1" + "0" * 400])),
     ("parse_object", "convert an int to float (float(val) in the leaf branch)"): ("natural:OverflowError", lambda p: p.parse_object({"f": 10 ** 400})),
@@ -407,13 +463,18 @@ def inject_worker(job):
         undo.append((mod, name, old))
 
     try:
-        p = ArgumentParser(exit_on_error=False, env_prefix="APP")
+        dcf_file = None
+        if how == "dcf":
+            dcf_file = os.path.join(tmp, "defaults.yaml")
+            with open(dcf_file, "w") as fh:
+                fh.write("j: 5\n")
+        p = ArgumentParser(exit_on_error=(how == "dcf"), env_prefix="APP", default_config_files=[dcf_file] if dcf_file else None)
         p.add_argument("--cfg", action=ActionConfigFile)
         p.add_argument("--i", type=int, default=1)
         p.add_argument("--u", type=Union[int, List[str]], default=1)
         p.add_argument("--j", type=int, default=0)
         p.add_argument("--f", type=float, default=1.0)
-        if how == "natural:NSKeyError":
+        if how in ("natural:NSKeyError", "natural:TypeError"):
             sc = p.add_subcommands(required=False)
             sa = ArgumentParser()
             sa.add_argument("--k", type=int, default=1)
@@ -495,6 +556,15 @@ def inject_worker(job):
                 return real(self, *a, **k)
 
             patch(_core.Path, "get_content", fake)
+        elif how == "dcf":
+            real = _core.ArgumentParser._parse_common
+
+            def fake(self, *a, **k):
+                if k.get("skip_required") is True and k.get("env") is False and k.get("defaults") is False:  # the call made by get_defaults
+                    raise ex
+                return real(self, *a, **k)
+
+            patch(_core.ArgumentParser, "_parse_common", fake)
         elif how.startswith("natural:"):
             pass
         elif how == "link":
@@ -525,9 +595,12 @@ def inject_worker(job):
                 call(p)
             out, detail = "return", ""
         except ArgumentError:
-            out, detail = "channel", ""
+            out, detail = ("escape", "ArgumentError under exit_on_error=True") if how == "dcf" else ("channel", "")
         except SystemExit as e:
-            out, detail = "escape", f"SystemExit({e.code})"
+            if how == "dcf" and e.code == 2 and "usage:" in err.getvalue() and "error:" in err.getvalue():
+                out, detail = "channel", ""  # exit_on_error=True: usage text + exit status 2 IS the documented channel
+            else:
+                out, detail = "escape", f"SystemExit({e.code})"
         except BaseException as e:  # noqa: B036
             out, detail = "escape", type(e).__name__
         return {"method": method, "stage": stage, "cls": cls, "out": out, "detail": detail}
